@@ -16,7 +16,7 @@ from __future__ import annotations
 import vlib.boot  # noqa: F401
 from vlib.boot import B, drive
 from vlib.ob import obligation, smt_obligation
-from vlib.world import EVA, StubPolicy, pick, world_ab, world_ab_valid
+from vlib.world import EVA, StubPolicy, world_ab, world_ab_valid
 from vlib import h_retry as H
 
 import workflows.context.internal_context as ic_mod
@@ -75,12 +75,6 @@ T0MAX = B(2, 3)
 WAITMAX = B(2, 3)
 TMAX = B(2, 3)
 DTMAX = B(2, 4)
-_D_POOL = list(range(9))
-_SMALL = list(range(0, 4))
-_SKEW = list(range(-3, 4))
-_T0_POOL = list(range(1, T0MAX + 1))
-_DT_POOL = list(range(0, DTMAX + 1))
-_EL_POOL = list(range(11))
 
 
 # ---------------------------------------------------------------------------------------------- policy kernel (S)
@@ -146,8 +140,8 @@ def ob_stop_after_delay_iff(d: int, el: int, n: int, k: int, composed: bool) -> 
     # explicit forks: stop_after_delay compares elapsed with float(d); a symbolic int/real mix is inconclusive in CrossHair
     # (and trips a z3 5.1 lar_solver assertion) — d and elapsed are enumerated by the solver, n and k stay symbolic.
     # The real-valued statement is ob_stop_after_delay_reals (Engine T).
-    d = pick(_D_POOL, d)
-    el = pick(_EL_POOL, el)
+    d = H.fork_int(d, 0, 8)
+    el = H.fork_int(el, 0, 10)
     if composed:
         pol = retry_policy(wait=wait_fixed(0), stop=stop_after_attempt(n) | stop_after_delay(d))
         want = k < max(n, 1) and el < d
@@ -186,8 +180,8 @@ def ob_reducer_feeds_policy(nw: int, b1: bool, q: int, wid: int, a: int, t0: int
     """
     # instants are enumerated by explicit forks (the real StepWorkerFailed is a validated pydantic model: failed_at is a
     # concrete float there; a symbolic datetime.fromtimestamp is needlessly expensive); the attempt counter stays symbolic
-    t0 = pick(_T0_POOL, t0)
-    dt = pick(_DT_POOL, dt)
+    t0 = H.fork_int(t0, 1, T0MAX)
+    dt = H.fork_int(dt, 0, DTMAX)
     policy = StubPolicy(pol, delay=3)
     hs, hfs = _handlers(routed)
     st = world_ab(nw, True, b1, False, q, att=a, policy=policy, t0=t0, handlers=hs, handler_for_step=hfs, rc=({"h": rc} if routed else None))
@@ -386,10 +380,10 @@ def ob_clock_consistency(ow: int, skew: int, t1: int, d_run: int, d_tick: int, d
     # every instant crosses a validated pydantic model in the real code (StepWorkerFailed.failed_at, TickAddEvent.first_attempt_at,
     # WorkflowFailedEvent.elapsed_seconds) and is realised there; enumerate by explicit forks up front instead (one path per
     # combination, no int/real solver queries)
-    ow = pick(_SMALL, ow)
-    skew = pick(_SKEW, skew)
-    t1 = pick(_SMALL, t1)
-    d_run, d_tick, d_run2, d_in2 = pick(_SMALL, d_run), pick(_SMALL, d_tick), pick(_SMALL, d_run2), pick(_SMALL, d_in2)
+    ow = H.fork_int(ow, 0, TMAX - 1)
+    skew = H.fork_int(skew, -TMAX + 1, TMAX - 1)
+    t1 = H.fork_int(t1, 1, 2)
+    d_run, d_tick, d_run2, d_in2 = H.fork_int(d_run, 0, TMAX - 1), H.fork_int(d_tick, 0, 1), H.fork_int(d_run2, 0, 1), H.fork_int(d_in2, 0, TMAX - 1)
     obs = _clock_chain(ow, ow + skew, t1, d_run, d_tick, d_run2, d_in2)
     if obs is None:
         return False
